@@ -9,6 +9,7 @@ mod eng_addr;
 mod eng_pte;
 mod gen_addr;
 mod gen_tbl;
+mod softcpu;
 mod util;
 
 use util::*;
@@ -46,6 +47,50 @@ fn main() {
                 "C08" | "C12" | "C14" | "C15" => gen_tbl::oracle(prop),
                 _ => panic!("unknown property"),
             }
+        }
+        Some("selftest") => {
+            use x86_64::instructions::port::Port;
+            use x86_64::registers::control::{Cr3, Cr4, Cr4Flags};
+            use x86_64::registers::model_specific::{Efer, Msr};
+            softcpu::install();
+            let c = softcpu::cpu();
+            c.reset();
+            c.cr[3] = 0x1005;
+            x86_64::instructions::interrupts::disable();
+            println!("if={}", x86_64::instructions::interrupts::are_enabled());
+            x86_64::instructions::interrupts::enable();
+            println!("if={}", x86_64::instructions::interrupts::are_enabled());
+            unsafe {
+                let mut p: Port<u16> = Port::new(0x3f8);
+                p.write(0xabcd);
+                println!("in={:x}", p.read());
+                let mut m = Msr::new(0x1234);
+                m.write(0x1122334455667788);
+                println!("msr={:x}", m.read());
+                println!("efer={:?}", Efer::read());
+                println!("cr3={:?}", Cr3::read());
+                Cr4::write(Cr4Flags::PCID);
+                x86_64::instructions::tlb::flush(x86_64::VirtAddr::new(0x7000));
+                x86_64::instructions::tlb::flush_all();
+                x86_64::instructions::tlb::flush_pcid(x86_64::instructions::tlb::InvPcidCommand::Single(x86_64::instructions::tlb::Pcid::new(5).unwrap()));
+                let gdt = Box::leak(Box::new(x86_64::structures::gdt::GlobalDescriptorTable::<8>::empty()));
+                gdt.load_unsafe();
+                x86_64::instructions::tables::load_tss(x86_64::structures::gdt::SegmentSelector(0x28));
+                x86_64::registers::xcontrol::XCr0::write_raw(7);
+                println!("xcr0={:x}", x86_64::registers::xcontrol::XCr0::read_raw());
+                x86_64::instructions::interrupts::enable_and_hlt();
+                use x86_64::instructions::segmentation::{Segment, CS, SS, GS};
+                SS::set_reg(x86_64::structures::gdt::SegmentSelector(0x1234));
+                CS::set_reg(x86_64::structures::gdt::SegmentSelector(0x4321));
+                GS::swap();
+                let inv = x86_64::instructions::tlb::Invlpgb::verif_new(10, true, 100);
+                inv.build().flush();
+                inv.tlbsync();
+            }
+            for t in c.take_log() {
+                println!("{:?}", t);
+            }
+            println!("unknown={}", c.unknown);
         }
         _ => {
             eprintln!("usage: harness run|gen|oracle ...");
